@@ -213,6 +213,9 @@ Inductive pre (t : tid) (g : gstate) (l : lstate) (s : sstate) : gstate -> sstat
     pre t g l s (set_cell g m (S (tmp s))) s true
 | pre_spawn : forall u lu su, nth_error (thr g) u = Some (lu, su) -> started su = false ->
     pre t g l s (set_thr g u (lu, set_started su)) s true
+| pre_respawn : forall u lu su p, nth_error (thr g) u = Some (lu, su) ->     (* Thread object called again *)
+    started su = true -> done lu = true -> joined su = true -> nth_error (progs g) u = Some p ->
+    pre t g l s (set_thr g u (restart lu p, relaunch su)) s true
 | pre_join : forall u lu su k, code l = KOp (OJoin u) :: k ->
     nth_error (thr g) u = Some (lu, su) -> started su = true -> done lu = true -> joined su = false ->
     pre t g l s (set_thr g u (lu, set_joined su)) s true
@@ -263,7 +266,10 @@ Proof.
     + (* incr *) destruct (nmem m (holding s)) eqn:Hh; auto.
       apply ADV; [eapply pre_load; eauto | intros m' k' HH; inversion HH; subst; auto].
     + (* spawn *) destruct (nth_error (thr g) t0) as [[lu su]|] eqn:Hu; auto.
-      destruct (started su) eqn:Hs; auto. apply ADV; [eapply pre_spawn; eauto | nohd].
+      destruct (started su) eqn:Hs; [|apply ADV; [eapply pre_spawn; eauto | nohd]].
+      destruct (done lu) eqn:Hd; simpl; auto. destruct (joined su) eqn:Hj; simpl; auto.
+      destruct (nth_error (progs g) t0) as [p|] eqn:Hp; auto.
+      apply ADV; [eapply pre_respawn; eauto | nohd].
     + (* join *) destruct (nth_error (thr g) t0) as [[lu su]|] eqn:Hu; auto.
       destruct (started su) eqn:Hs; simpl; [|apply ADV; [constructor | nohd]].
       destruct (done lu) eqn:Hd; simpl; [|constructor].
@@ -274,120 +280,6 @@ Proof.
   - unfold release. destruct (mtx g m) as [ow|] eqn:Hm; auto.
     destruct (ow =? t) eqn:E; auto. apply Nat.eqb_eq in E; subst ow. apply ADV; [constructor; auto | nohd].
   - apply ADV; [eapply pre_store; eauto | nohd].
-Qed.
-
-(* ------------------------------------------------------------------ isolation *)
-(* per thread: its core and the answers its own instructions got (ghost history) *)
-Definition pc (g : gstate) : list (lstate * list bool) := map (fun ls => (fst ls, hist (snd ls))) (thr g).
-
-Lemma pc_set_thr_same : forall g u lu su su', nth_error (thr g) u = Some (lu, su) -> hist su' = hist su ->
-  pc (set_thr g u (lu, su')) = pc g.
-Proof.
-  intros. unfold pc, set_thr; simpl. rewrite map_upd. simpl. apply upd_same.
-  rewrite nth_error_map, H. simpl. rewrite H0. reflexivity.
-Qed.
-
-Lemma pre_pc : forall t g l s g1 s1 ok, pre t g l s g1 s1 ok -> pc g1 = pc g /\ hist s1 = hist s.
-Proof.
-  intros. inversion H; subst; simpl; auto; split; auto; eapply pc_set_thr_same; eauto.
-Qed.
-
-Lemma shape_pc : forall t g g', shape t g g' ->
-  pc g' = pc g \/ exists l h ok, nth_error (pc g) t = Some (l, h) /\ pc g' = upd (pc g) t (lstep c ok l, ok :: h).
-Proof.
-  intros. inversion H; subst; auto.
-  - left. eapply pc_set_thr_same; eauto.
-  - right. exists l, (hist s), ok. split.
-    + unfold pc. rewrite nth_error_map, H0. reflexivity.
-    + destruct (pre_pc _ _ _ _ _ _ _ H6) as [E1 E2].
-      unfold advance_ok; simpl. unfold pc at 1; simpl. rewrite map_upd. simpl. rewrite E2.
-      fold (pc g1). rewrite E1. reflexivity.
-Qed.
-
-Definition iso_inv (ps : list (list op)) (g : gstate) : Prop :=
-  forall t l h, nth_error (pc g) t = Some (l, h) ->
-    exists p, nth_error ps t = Some p /\ l = alone c h (linit t p).
-
-Lemma init_from_nth : forall ps k t,
-  nth_error (init_from k ps) t = option_map (fun p => (linit (k + t) p, sinit (k + t =? 0))) (nth_error ps t).
-Proof.
-  induction ps; intros; destruct t; simpl; auto.
-  - rewrite Nat.add_0_r. reflexivity.
-  - rewrite IHps. replace (S k + t) with (k + S t) by lia. reflexivity.
-Qed.
-
-Lemma iso_init : forall ps, iso_inv ps (ginit ps).
-Proof.
-  intros ps t l h H. unfold pc, ginit in H; simpl in H.
-  rewrite nth_error_map, init_from_nth in H. simpl in H.
-  destruct (nth_error ps t) eqn:E; simpl in H; inversion H; subst. eauto.
-Qed.
-
-Lemma iso_step : forall ps t g, iso_inv ps g -> iso_inv ps (G t g).
-Proof.
-  intros ps t g I. destruct (shape_pc _ _ _ (gstep_shape t g)) as [E|[l [h [ok [Hn E]]]]]; unfold iso_inv; rewrite E; auto.
-  intros t' l' h' H. destruct (Nat.eq_dec t t').
-  - subst t'. rewrite nth_error_upd_eq in H.
-    + inversion H; subst. destruct (I _ _ _ Hn) as [p [Hp Hl]]. exists p. split; auto.
-      rewrite alone_S. congruence.
-    + apply nth_error_Some. congruence.
-  - rewrite nth_error_upd_ne in H; auto.
-Qed.
-
-Lemma iso_run : forall ps sched g, iso_inv ps g -> iso_inv ps (R sched g).
-Proof. induction sched; simpl; intros; auto. apply IHsched. apply iso_step; auto. Qed.
-
-(* For EVERY schedule: the core of every thread (continuation, collector registry and finalisation
-   ledger, exception record, thread-local storage, result trace) is a function of its OWN program and
-   of the answers its OWN trylock attempts got (hist: true everywhere except a refused OTryOnce) —
-   it is what the thread reaches on its own after the same instructions with the same answers. *)
-Theorem isolation_core : forall ps sched t l s,
-  nth_error (thr (R sched (ginit ps))) t = Some (l, s) ->
-  exists p, nth_error ps t = Some p /\ l = alone c (hist s) (linit t p).
-Proof.
-  intros. apply (iso_run ps sched _ (iso_init ps) t l (hist s)).
-  unfold pc. rewrite nth_error_map, H. reflexivity.
-Qed.
-
-(* no try-once section was refused (in particular: the program has none): the stand-alone run proper *)
-Corollary isolation_plain : forall ps sched t l s,
-  nth_error (thr (R sched (ginit ps))) t = Some (l, s) -> forallb (fun x => x) (hist s) = true ->
-  exists p, nth_error ps t = Some p /\ l = alone_n c (steps s) (linit t p).
-Proof.
-  intros. destruct (isolation_core _ _ _ _ _ H) as [p [Hp Hl]]. exists p. split; auto.
-  unfold alone_n, steps. replace (repeat true (length (hist s))) with (hist s); auto.
-  clear - H0. induction (hist s) as [|x h IH]; simpl in *; auto.
-  apply andb_true_iff in H0. destruct H0 as [-> H0]. f_equal. auto.
-Qed.
-
-(* a finished thread has computed exactly its complete stand-alone result (whatever comes after) *)
-Theorem isolation_finished : forall ps sched t l s,
-  nth_error (thr (R sched (ginit ps))) t = Some (l, s) -> done l = true ->
-  exists p, nth_error ps t = Some p /\ forall h', alone c (h' ++ hist s) (linit t p) = l.
-Proof.
-  intros. destruct (isolation_core _ _ _ _ _ H) as [p [Hp Hl]]. exists p. split; auto.
-  intros. subst l. apply alone_final. auto.
-Qed.
-
-Lemma pc_fst : forall g, map fst (pc g) = map fst (thr g).
-Proof. intros. unfold pc. rewrite map_map. apply map_ext. reflexivity. Qed.
-
-(* frame: an instruction of t never changes the core of another thread *)
-Theorem step_frame : forall t t' g, t <> t' -> core (G t g) t' = core g t'.
-Proof.
-  intros. unfold core. rewrite <- !nth_error_map, <- !pc_fst.
-  destruct (shape_pc _ _ _ (gstep_shape t g)) as [E|[l [h [ok [Hn E]]]]]; rewrite E; auto.
-  rewrite map_upd. apply nth_error_upd_ne; auto.
-Qed.
-
-(* no thread's collector ever finalises (or even registers) an object allocated by another thread *)
-Theorem no_foreign_finalisation : forall ps sched t l s o,
-  nth_error (thr (R sched (ginit ps))) t = Some (l, s) ->
-  In o (reg l) \/ In o (fin l) -> fst o = t.
-Proof.
-  intros. destruct (isolation_core _ _ _ _ _ H) as [p [Hp Hl]].
-  assert (O : own l) by (subst l; apply alone_own, linit_own).
-  rewrite (O o H0). subst l. rewrite alone_me. reflexivity.
 Qed.
 
 (* ------------------------------------------------------------------ lookups after a step *)
@@ -405,6 +297,143 @@ Lemma set_thr_lookup : forall g u x t' y,
 Proof.
   intros. unfold set_thr in H; simpl in H. apply nth_error_upd_some in H.
   destruct H as [[? E]|[? ?]]; [left|right]; auto.
+Qed.
+
+(* ------------------------------------------------------------------ what a step does to the other threads *)
+Lemma pre_self : forall t g l s g1 s1 ok, pre t g l s g1 s1 ok ->
+  hist s1 = hist s /\ past s1 = past s /\ joined s1 = joined s /\ progs g1 = progs g.
+Proof. intros. inversion H; subst; simpl; auto. Qed.
+
+(* an entry of g1 is the entry of g up to started/joined flags — or the relaunch of a finished, joined thread *)
+Lemma pre_lookup : forall t g l s g1 s1 ok, pre t g l s g1 s1 ok ->
+  forall t' l' s', nth_error (thr g1) t' = Some (l', s') ->
+    (exists s0, nth_error (thr g) t' = Some (l', s0) /\ holding s' = holding s0 /\ tmp s' = tmp s0 /\
+                hist s' = hist s0 /\ past s' = past s0 /\ (joined s' = true -> joined s0 = true \/ done l' = true))
+    \/ (exists lu su p, nth_error (thr g) t' = Some (lu, su) /\ done lu = true /\ joined su = true /\
+                         nth_error (progs g) t' = Some p /\ l' = restart lu p /\ s' = relaunch su).
+Proof.
+  intros t g l s g1 s1 ok P t' l' s' H.
+  assert (SAME : forall s0, nth_error (thr g) t' = Some (l', s0) -> holding s' = holding s0 -> tmp s' = tmp s0 ->
+            hist s' = hist s0 -> past s' = past s0 -> (joined s' = true -> joined s0 = true \/ done l' = true) ->
+            (exists s0, nth_error (thr g) t' = Some (l', s0) /\ holding s' = holding s0 /\ tmp s' = tmp s0 /\
+                hist s' = hist s0 /\ past s' = past s0 /\ (joined s' = true -> joined s0 = true \/ done l' = true)))
+    by (intros; eauto 10).
+  inversion P; subst; simpl in H; try (left; apply (SAME s'); auto; fail);
+    apply nth_error_upd_some in H; destruct H as [[<- E]|[? H]]; try (left; apply (SAME s'); auto; fail);
+    inversion E; subst.
+  - left. apply (SAME su); auto.
+  - right. exists lu, su, p. auto 10.
+  - left. apply (SAME su); auto.
+Qed.
+
+(* ------------------------------------------------------------------ isolation *)
+Definition iso_inv (ps : list (list op)) (g : gstate) : Prop :=
+  progs g = ps /\
+  forall t l s, nth_error (thr g) t = Some (l, s) ->
+    exists p, nth_error ps t = Some p /\ l = alone c (hist s) (base c t p (past s)).
+
+Lemma init_from_nth : forall ps k t,
+  nth_error (init_from k ps) t = option_map (fun p => (linit (k + t) p, sinit (k + t =? 0))) (nth_error ps t).
+Proof.
+  induction ps; intros; destruct t; simpl; auto.
+  - rewrite Nat.add_0_r. reflexivity.
+  - rewrite IHps. replace (S k + t) with (k + S t) by lia. reflexivity.
+Qed.
+
+Lemma iso_init : forall ps, iso_inv ps (ginit ps).
+Proof.
+  intros ps. split; auto. intros t l s H. unfold ginit in H; simpl in H.
+  rewrite init_from_nth in H. destruct (nth_error ps t) eqn:E; simpl in H; inversion H; subst. eauto.
+Qed.
+
+Lemma iso_step : forall ps t g, iso_inv ps g -> iso_inv ps (G t g).
+Proof.
+  intros ps t g [IP I]. destruct (gstep_shape t g) as [|l s Ht|l s g1 s1 ok Ht Hab Hst Hdo Hfa Hub P PI]; [split; auto| |].
+  - split; auto. intros t' l' s' H. apply set_thr_lookup in H. destruct H as [[-> E]|[Hne H]]; auto.
+    inversion E; subst. apply (I _ _ _ Ht).
+  - destruct (pre_self _ _ _ _ _ _ _ P) as [Eh [Ep [_ Eg]]].
+    split; [unfold advance_ok; simpl; congruence|].
+    intros t' l' s' H. apply adv_lookup in H. destruct H as [[-> [-> ->]]|[Hne H]].
+    + destruct (I _ _ _ Ht) as [p [Hp Hl]]. exists p. split; auto. simpl. rewrite Eh, Ep.
+      change (alone c (ok :: hist s) (base c t p (past s))) with (lstep c ok (alone c (hist s) (base c t p (past s)))).
+      congruence.
+    + destruct (pre_lookup _ _ _ _ _ _ _ P _ _ _ H) as [[s0 [H0 [_ [_ [Eh0 [Ep0 _]]]]]]|[lu [su [p [H0 [_ [_ [Hp [-> ->]]]]]]]]].
+      * rewrite Eh0, Ep0. apply (I _ _ _ H0).
+      * destruct (I _ _ _ H0) as [p' [Hp' Hl]]. assert (p' = p) by congruence. subst p'.
+        exists p. split; auto. simpl. congruence.
+Qed.
+
+Lemma iso_run : forall ps sched g, iso_inv ps g -> iso_inv ps (R sched g).
+Proof. induction sched; simpl; intros; auto. apply IHsched. apply iso_step; auto. Qed.
+
+(* For EVERY schedule: the core of every thread (continuation, collector registry and finalisation
+   ledger, exception record, thread-local storage, result trace) is a function of its OWN program and
+   of the answers its OWN trylock attempts got, over all the runs of its Thread object (hist: the
+   current run, past: the completed ones): it is what the thread reaches on its own with the same answers. *)
+Theorem isolation_core : forall ps sched t l s,
+  nth_error (thr (R sched (ginit ps))) t = Some (l, s) ->
+  exists p, nth_error ps t = Some p /\ l = alone c (hist s) (base c t p (past s)).
+Proof. intros. destruct (iso_run ps sched _ (iso_init ps)) as [_ I]. eauto. Qed.
+
+(* first run, no try-once section refused (e.g. the program has none): the stand-alone run proper *)
+Corollary isolation_plain : forall ps sched t l s,
+  nth_error (thr (R sched (ginit ps))) t = Some (l, s) -> past s = [] -> forallb (fun x => x) (hist s) = true ->
+  exists p, nth_error ps t = Some p /\ l = alone_n c (steps s) (linit t p).
+Proof.
+  intros ps sched t l s H Hp H0. destruct (isolation_core _ _ _ _ _ H) as [p [Hp' Hl]]. exists p. split; auto.
+  rewrite Hp in Hl. simpl in Hl.
+  unfold alone_n, steps. replace (repeat true (length (hist s))) with (hist s); auto.
+  clear - H0. induction (hist s) as [|x h IH]; simpl in *; auto.
+  apply andb_true_iff in H0. destruct H0 as [-> H0]. f_equal. auto.
+Qed.
+
+(* a finished thread has computed exactly its complete stand-alone result (whatever comes after) *)
+Theorem isolation_finished : forall ps sched t l s,
+  nth_error (thr (R sched (ginit ps))) t = Some (l, s) -> done l = true ->
+  exists p, nth_error ps t = Some p /\ forall h', alone c (h' ++ hist s) (base c t p (past s)) = l.
+Proof.
+  intros. destruct (isolation_core _ _ _ _ _ H) as [p [Hp Hl]]. exists p. split; auto.
+  intros. subst l. apply alone_final. auto.
+Qed.
+
+(* frame: an instruction of t never changes the core of another thread — except that calling a Thread
+   object whose previous run has finished and been joined starts its next run *)
+Theorem step_frame : forall t t' g, t <> t' ->
+  core (G t g) t' = core g t' \/
+  exists lu su p, nth_error (thr g) t' = Some (lu, su) /\ done lu = true /\ joined su = true /\
+                  nth_error (progs g) t' = Some p /\ core (G t g) t' = Some (restart lu p).
+Proof.
+  intros t t' g Hne. unfold core.
+  destruct (gstep_shape t g) as [|l s Ht|l s g1 s1 ok Ht Hab Hst Hdo Hfa Hub P PI]; auto.
+  - left. unfold set_thr; simpl. rewrite nth_error_upd_ne; auto.
+  - unfold advance_ok; simpl. rewrite nth_error_upd_ne; auto.
+    destruct (nth_error (thr g1) t') as [[l' s']|] eqn:H.
+    + destruct (pre_lookup _ _ _ _ _ _ _ P _ _ _ H) as [[s0 [H0 _]]|[lu [su [p [H0 [Hd [Hj [Hp [-> ->]]]]]]]]].
+      * left. rewrite H0. reflexivity.
+      * right. exists lu, su, p. auto 10.
+    + left. inversion P; subst; simpl in H; try (rewrite H; reflexivity);
+        unfold set_thr in H; simpl in H;
+        (destruct (Nat.eq_dec u t') as [->|Hn]; [rewrite nth_error_upd_eq in H; [discriminate | apply nth_error_Some; congruence]
+                                                 | rewrite nth_error_upd_ne in H; auto; rewrite H; reflexivity]).
+Qed.
+
+(* no thread's collector ever finalises (or even registers) an object allocated by another thread *)
+Lemma base_me : forall t p pa, me (base c t p pa) = t.
+Proof. induction pa; simpl; auto. rewrite alone_me. auto. Qed.
+
+Lemma base_own : forall t p pa, own (base c t p pa).
+Proof.
+  induction pa; simpl; [apply linit_own|].
+  pose proof (alone_own c a _ IHpa) as O. intros o [[]|Hin]. simpl in Hin. apply O. auto.
+Qed.
+
+Theorem no_foreign_finalisation : forall ps sched t l s o,
+  nth_error (thr (R sched (ginit ps))) t = Some (l, s) ->
+  In o (reg l) \/ In o (fin l) -> fst o = t.
+Proof.
+  intros. destruct (isolation_core _ _ _ _ _ H) as [p [Hp Hl]].
+  assert (O : own l) by (subst l; apply alone_own, base_own).
+  rewrite (O o H0). subst l. rewrite alone_me. apply base_me.
 Qed.
 
 (* ------------------------------------------------------------------ mutual exclusion *)
@@ -439,6 +468,9 @@ Proof.
       * apply Nat.eqb_eq in E; subst m0. rewrite (I _ _ _ _ H Hin) in H0. congruence.
       * eapply I; eauto.
     + (* spawn: another thread's flag *) apply set_thr_lookup in H. destruct H as [[-> E]|[? H]].
+      * inversion E; subst. simpl in Hin. eapply I; eauto.
+      * eapply I; eauto.
+    + (* the Thread object is called again *) apply set_thr_lookup in H. destruct H as [[-> E]|[? H]].
       * inversion E; subst. simpl in Hin. eapply I; eauto.
       * eapply I; eauto.
     + apply set_thr_lookup in H. destruct H as [[-> E]|[? H]].
@@ -480,17 +512,6 @@ Definition inc_inv (g : gstate) : Prop :=
     nostore (tl (code l)) /\
     forall m k, code l = KStore m :: k -> In m (holding s) /\ tmp s = cells g m.
 
-(* the other threads' entries of g1 are those of g up to the started/joined flags *)
-Lemma pre_other : forall t g l s g1 s1 ok, pre t g l s g1 s1 ok ->
-  forall t' l' s', nth_error (thr g1) t' = Some (l', s') ->
-    exists s0, nth_error (thr g) t' = Some (l', s0) /\ holding s' = holding s0 /\ tmp s' = tmp s0.
-Proof.
-  intros t g l s g1 s1 ok P t' l' s' H.
-  inversion P; subst; simpl in H; try (exists s'; auto; fail);
-    apply nth_error_upd_some in H; destruct H as [[<- E]|[? H]]; try (exists s'; auto; fail);
-    inversion E; subst; exists su; auto.
-Qed.
-
 Lemma pre_cells : forall t g l s g1 s1 ok, pre t g l s g1 s1 ok ->
   cells g1 = cells g \/ exists m k, code l = KStore m :: k /\ cells g1 = fupd (cells g) m (S (tmp s)).
 Proof. intros. inversion H; subst; simpl; eauto. Qed.
@@ -509,14 +530,18 @@ Proof.
       * rewrite E2 in Hc. inversion Hc; subst m0 k0.
         destruct (PI _ _ E1) as [Hh [-> ->]]. simpl. split; [apply nmem_in; auto | reflexivity].
     + (* another thread *)
-      destruct (pre_other _ _ _ _ _ _ _ P _ _ _ H) as [s0 [H0 [Eh Et]]].
-      destruct (I _ _ _ H0) as [W N]. split; auto.
-      intros m k Hc. destruct (N _ _ Hc) as [Hin Htmp]. rewrite Eh, Et. split; auto.
-      unfold advance_ok; simpl. destruct (pre_cells _ _ _ _ _ _ _ P) as [->|[m' [k' [Hc' ->]]]]; auto.
-      unfold fupd. destruct (m =? m') eqn:E; auto.
-      apply Nat.eqb_eq in E; subst m'. exfalso.
-      destruct (I _ _ _ Ht) as [_ N']. destruct (N' _ _ Hc') as [Hin' _].
-      pose proof (MX _ _ _ _ Ht Hin'). pose proof (MX _ _ _ _ H0 Hin). congruence.
+      destruct (pre_lookup _ _ _ _ _ _ _ P _ _ _ H) as [[s0 [H0 [Eh [Et _]]]]|[lu [su [p [H0 [_ [_ [_ [-> ->]]]]]]]]].
+      * destruct (I _ _ _ H0) as [W N]. split; auto.
+        intros m k Hc. destruct (N _ _ Hc) as [Hin Htmp]. rewrite Eh, Et. split; auto.
+        unfold advance_ok; simpl. destruct (pre_cells _ _ _ _ _ _ _ P) as [->|[m' [k' [Hc' ->]]]]; auto.
+        unfold fupd. destruct (m =? m') eqn:E; auto.
+        apply Nat.eqb_eq in E; subst m'. exfalso.
+        destruct (I _ _ _ Ht) as [_ N']. destruct (N' _ _ Hc') as [Hin' _].
+        pose proof (MX _ _ _ _ Ht Hin'). pose proof (MX _ _ _ _ H0 Hin). congruence.
+      * (* relaunched: the continuation is the plain program *)
+        simpl. split.
+        -- intros m Hin. destruct p; simpl in Hin; auto. apply in_map_iff in Hin. destruct Hin as [? [? ?]]. discriminate.
+        -- intros m k Hc. destruct p; simpl in Hc; discriminate.
 Qed.
 
 Lemma inc_init : forall ps, inc_inv (ginit ps).
@@ -554,9 +579,6 @@ Qed.
 Definition jn_inv (g : gstate) : Prop :=
   forall u lu su, nth_error (thr g) u = Some (lu, su) -> joined su = true -> done lu = true.
 
-Lemma pre_joined : forall t g l s g1 s1 ok, pre t g l s g1 s1 ok -> joined s1 = joined s.
-Proof. intros. inversion H; subst; reflexivity. Qed.
-
 Lemma jn_step : forall t g, jn_inv g -> jn_inv (G t g).
 Proof.
   intros t g I. destruct (gstep_shape t g) as [|l s Ht|l s g1 s1 ok Ht Hab Hst Hdo Hfa Hub P PI]; auto.
@@ -564,15 +586,12 @@ Proof.
     + inversion E; subst. simpl in Hj. eapply I; eauto.
     + eapply I; eauto.
   - intros u lu su H Hj. apply adv_lookup in H. destruct H as [[-> [-> ->]]|[Hne H]].
-    + simpl in Hj. change (joined (bump ok s1)) with (joined s1) in Hj. rewrite (pre_joined _ _ _ _ _ _ _ P) in Hj.
+    + destruct (pre_self _ _ _ _ _ _ _ P) as [_ [_ [Ej _]]].
+      change (joined (bump ok s1)) with (joined s1) in Hj. rewrite Ej in Hj.
       rewrite (I _ _ _ Ht Hj) in Hdo. discriminate.
-    + inversion P; subst; try (eapply I; eauto; fail).
-      * apply set_thr_lookup in H. destruct H as [[-> E]|[? H]].
-        -- inversion E; subst. simpl in Hj. eapply I; eauto.
-        -- eapply I; eauto.
-      * apply set_thr_lookup in H. destruct H as [[-> E]|[? H]].
-        -- inversion E; subst. auto.
-        -- eapply I; eauto.
+    + destruct (pre_lookup _ _ _ _ _ _ _ P _ _ _ H) as [[s0 [H0 [_ [_ [_ [_ J]]]]]]|[lu' [su' [p [_ [_ [_ [_ [_ ->]]]]]]]]].
+      * destruct (J Hj); auto. eapply I; eauto.
+      * discriminate Hj.
 Qed.
 
 Lemma jn_init : forall ps, jn_inv (ginit ps).
@@ -589,44 +608,42 @@ Theorem join_waits : forall ps sched u lu su,
   nth_error (thr (R sched (ginit ps))) u = Some (lu, su) -> joined su = true -> done lu = true.
 Proof. intros. eapply (jn_run sched _ (jn_init ps)); eauto. Qed.
 
-(* a finished thread's core never changes again *)
-Lemma done_stable_step : forall t g u lu, core g u = Some lu -> done lu = true -> core (G t g) u = Some lu.
-Proof.
-  intros t g u lu H Hd. destruct (Nat.eq_dec t u) as [->|Hne]; [|rewrite step_frame; auto].
-  unfold core in *. rewrite <- nth_error_map, <- pc_fst in *.
-  destruct (shape_pc _ _ _ (gstep_shape u g)) as [E|[l [n [ok [Hn E]]]]]; rewrite E; auto.
-  rewrite map_upd. simpl.
-  assert (l = lu). { rewrite nth_error_map, Hn in H. simpl in H. congruence. }
-  subst l. rewrite lstep_done; auto. rewrite upd_same; auto.
-Qed.
-
-Lemma done_stable : forall sched g u lu, core g u = Some lu -> done lu = true -> core (R sched g) u = Some lu.
-Proof. induction sched; simpl; intros; auto. apply IHsched; auto. apply done_stable_step; auto. Qed.
-
-(* join publishes: once a join(u) has returned, whatever any thread reads from u afterwards (at any
-   later point of any schedule) is u's complete stand-alone result trace *)
-Theorem join_publishes_gen : forall ps sched sched' t u lu su p l s k,
-  nth_error (thr (R sched (ginit ps))) u = Some (lu, su) -> joined su = true ->
+(* join publishes: whenever the LATEST call of Thread object u has been joined, whatever any thread reads
+   from u is the complete result of that latest run (and of the earlier ones): u has finished, its core is
+   final for every continuation of its history, and the read returns exactly its trace *)
+Theorem join_publishes_gen : forall ps sched t u lu su p l s k,
+  let g := R sched (ginit ps) in
+  nth_error (thr g) u = Some (lu, su) -> joined su = true ->
   nth_error ps u = Some p ->
-  let g' := R sched' (R sched (ginit ps)) in
-  nth_error (thr g') t = Some (l, s) ->
-  aborted g' = false -> started s = true -> done l = false -> fatal l = false -> ub s = false ->
+  nth_error (thr g) t = Some (l, s) ->
+  aborted g = false -> started s = true -> done l = false -> fatal l = false -> ub s = false ->
   code l = KOp (OPeek u) :: k ->
   done lu = true /\
-  (forall h', alone c (h' ++ hist su) (linit u p) = lu) /\
-  option_map (fun ls => seen (snd ls)) (nth_error (thr (G t g')) t) = Some ((u, out lu) :: seen s).
+  (forall h', alone c (h' ++ hist su) (base c u p (past su)) = lu) /\
+  option_map (fun ls => seen (snd ls)) (nth_error (thr (G t g)) t) = Some ((u, out lu) :: seen s).
 Proof.
-  intros ps sched sched' t u lu su p l s k Hu Hj Hp g' Ht Hab Hst Hdo Hfa Hub Hc.
+  intros ps sched t u lu su p l s k g Hu Hj Hp Ht Hab Hst Hdo Hfa Hub Hc.
   assert (Hd : done lu = true) by (eapply join_waits; eauto).
   split; auto. split.
   - destruct (isolation_finished _ _ _ _ _ Hu Hd) as [p' [Hp' F]]. assert (p' = p) by congruence. subst p'. exact F.
-  - assert (Hu' : core g' u = Some lu).
-    { apply done_stable; auto. unfold core. rewrite Hu. reflexivity. }
-    unfold core in Hu'. destruct (nth_error (thr g') u) as [[lu' su']|] eqn:Eu; simpl in Hu'; inversion Hu'; subst lu'.
-    unfold gstep. rewrite Hab, Ht, Hst, Hdo, Hfa, Hub. simpl. rewrite Hc, Eu.
+  - unfold gstep. fold g. rewrite Hab, Ht, Hst, Hdo, Hfa, Hub. simpl. rewrite Hc, Hu.
     unfold advance, advance_ok; simpl. rewrite nth_error_upd_eq.
     + reflexivity.
     + apply nth_error_Some. congruence.
+Qed.
+
+(* a call of a Thread object starts a NEW run: it is not joined until a join executed after that call returns *)
+Theorem call_resets_join : forall t g u lu su p l s k,
+  nth_error (thr g) t = Some (l, s) -> aborted g = false -> started s = true -> done l = false ->
+  fatal l = false -> ub s = false -> code l = KOp (OSpawn u) :: k ->
+  nth_error (thr g) u = Some (lu, su) -> started su = true -> done lu = true -> joined su = true ->
+  nth_error (progs g) u = Some p -> t <> u ->
+  nth_error (thr (G t g)) u = Some (restart lu p, relaunch su).
+Proof.
+  intros t g u lu su p l s k Ht Hab Hst Hdo Hfa Hub Hc Hu Hsu Hdu Hju Hp Hne.
+  unfold gstep. rewrite Hab, Ht, Hst, Hdo, Hfa, Hub. simpl. rewrite Hc, Hu, Hsu, Hdu, Hju, Hp. simpl.
+  unfold advance, advance_ok; simpl. rewrite nth_error_upd_ne; auto.
+  apply nth_error_upd_eq. apply nth_error_Some. congruence.
 Qed.
 
 End Machine.
